@@ -987,8 +987,21 @@ if NUMPY_VERSION >= Version("2.1.0.dev0"):
         return cumprod(x, *args, **kwargs)
 
 
+def _pad_values_in(units, values):
+    # constant_values / end_values become elements of the result: express them
+    # in the array's unit, or refuse (they may be nested (before, after) pairs)
+    if isinstance(values, unyt_array):
+        return values.to_value(units)
+    if isinstance(values, (list, tuple)):
+        return type(values)(_pad_values_in(units, v) for v in values)
+    return values
+
+
 @implements(np.pad)
 def pad(array, *args, **kwargs):
+    for key in ("constant_values", "end_values"):
+        if key in kwargs:
+            kwargs[key] = _pad_values_in(array.units, kwargs[key])
     return np.pad._implementation(np.asarray(array), *args, **kwargs) * array.units
 
 
